@@ -33,6 +33,7 @@ type Trace struct {
 	Facts     []Rel
 	Events    []Event
 	Ret       []string
+	RetRel    *Rel   // for a single boolean result selected by the path: the comparison it denotes
 	Exit      string // return | panic | truncated
 	Decisions []string
 	Unsigned  map[string]bool
@@ -46,7 +47,7 @@ type Trace struct {
 }
 
 func (t *Trace) clone() *Trace {
-	n := &Trace{Exit: t.Exit, epoch: t.epoch, fresh: t.fresh, ExitPos: t.ExitPos}
+	n := &Trace{Exit: t.Exit, epoch: t.epoch, fresh: t.fresh, ExitPos: t.ExitPos, RetRel: t.RetRel}
 	n.Facts = append([]Rel{}, t.Facts...)
 	n.Events = append([]Event{}, t.Events...)
 	n.Ret = append([]string{}, t.Ret...)
@@ -115,9 +116,10 @@ type Sim struct {
 }
 
 type frame struct {
-	fn   *ssa.Function
-	fi   *FuncInfo
-	regs map[ssa.Value]string
+	fn     *ssa.Function
+	fi     *FuncInfo
+	phiSel map[*ssa.Phi]ssa.Value
+	regs   map[ssa.Value]string
 	// parameter substitution for inlined closures: free vars resolve through fi.bind in parent frame
 	parent *frame
 	defers []deferred
@@ -167,6 +169,10 @@ func (s *Sim) walk(fr *frame, b *ssa.BasicBlock, prev *ssa.BasicBlock, t *Trace,
 		for i, pr := range b.Preds {
 			if pr == prev {
 				fr.regs[phi] = s.val(fr, t, phi.Edges[i])
+				if fr.phiSel == nil {
+					fr.phiSel = map[*ssa.Phi]ssa.Value{}
+				}
+				fr.phiSel[phi] = phi.Edges[i]
 			}
 		}
 	}
@@ -177,7 +183,7 @@ func (s *Sim) walk(fr *frame, b *ssa.BasicBlock, prev *ssa.BasicBlock, t *Trace,
 			key, fields := s.addr(fr, t, x.Addr)
 			v := s.val(fr, t, x.Val)
 			s.store(t, key, fields, v)
-			if s.RecordStores && len(fields) > 0 && !strings.HasPrefix(key, "local:") && !strings.HasPrefix(key, "new:") {
+			if s.RecordStores && len(fields) > 0 {
 				t.Events = append(t.Events, Event{Callee: "store", Args: []string{key, v}, Pos: s.P.PosStr(x.Pos(), fr.fn), Instr: x, Facts: append([]Rel{}, t.Facts...)})
 			}
 		case *ssa.MapUpdate:
@@ -214,6 +220,29 @@ func (s *Sim) walk(fr *frame, b *ssa.BasicBlock, prev *ssa.BasicBlock, t *Trace,
 			var ret []string
 			for _, r := range x.Results {
 				ret = append(ret, s.val(fr, t, r))
+			}
+			if len(x.Results) == 1 {
+				if b, ok := x.Results[0].Type().Underlying().(*types.Basic); ok && b.Info()&types.IsBoolean != 0 {
+					v := x.Results[0]
+					for k := 0; k < 8; k++ {
+						ph, ok := v.(*ssa.Phi)
+						if !ok {
+							break
+						}
+						sel, ok := fr.phiSel[ph]
+						if !ok {
+							break
+						}
+						v = sel
+					}
+					if _, isConst := v.(*ssa.Const); !isConst {
+						if _, isPhi := v.(*ssa.Phi); !isPhi {
+							if r, ok := s.condRel(fr, t, v); ok {
+								t.RetRel = &r
+							}
+						}
+					}
+				}
 			}
 			t.Exit = "return"
 			t.ExitPos = s.P.PosStr(x.Pos(), fr.fn)
@@ -323,6 +352,10 @@ func (fr *frame) cloneRegs() *frame {
 	n.regs = map[ssa.Value]string{}
 	for k, v := range fr.regs {
 		n.regs[k] = v
+	}
+	n.phiSel = map[*ssa.Phi]ssa.Value{}
+	for k, v := range fr.phiSel {
+		n.phiSel[k] = v
 	}
 	n.defers = append([]deferred{}, fr.defers...)
 	return &n
@@ -599,7 +632,15 @@ func (s *Sim) call(fr *frame, t *Trace, x *ssa.Call) []string {
 		r := b.Name() + "(" + strings.Join(args, ", ") + ")"
 		if b.Name() == "delete" && len(com.Args) > 0 {
 			key, fields := s.addr(fr, t, com.Args[0])
+			if s.RecordStores {
+				t.Events = append(t.Events, Event{Callee: "delete", Args: []string{key, args[1]}, Pos: s.P.PosStr(x.Pos(), fr.fn), Instr: x, Facts: append([]Rel{}, t.Facts...)})
+			}
 			s.havocKey(t, key, fields)
+		}
+		if s.Record["*"] || s.Record[b.Name()] {
+			if b.Name() == "close" || b.Name() == "recover" || b.Name() == "panic" {
+				t.Events = append(t.Events, Event{Callee: b.Name(), Args: args, Results: []string{r}, Pos: s.P.PosStr(x.Pos(), fr.fn), Instr: x, Facts: append([]Rel{}, t.Facts...)})
+			}
 		}
 		return []string{r}
 	}
@@ -682,4 +723,34 @@ func (s *Sim) call(fr *frame, t *Trace, x *ssa.Call) []string {
 // SortTraces orders traces deterministically.
 func SortTraces(ts []*Trace) {
 	sort.SliceStable(ts, func(i, j int) bool { return ts[i].Describe() < ts[j].Describe() })
+}
+
+// TrueSummary returns, for a loop-free boolean function, one fact set per path
+// on which the result may be true (path facts plus the returned comparison).
+func (s *Sim) TrueSummary(fn *ssa.Function) (sums [][]Rel, unsigned map[string]bool, ok bool) {
+	ts := s.Run(fn)
+	if s.Trunc {
+		return nil, nil, false
+	}
+	unsigned = map[string]bool{}
+	for _, t := range ts {
+		if t.Exit != "return" || len(t.Ret) != 1 {
+			continue
+		}
+		for k := range t.Unsigned {
+			unsigned[k] = true
+		}
+		if t.Ret[0] == "false" {
+			continue
+		}
+		f := append([]Rel{}, t.Facts...)
+		if t.Ret[0] != "true" {
+			if t.RetRel == nil {
+				return nil, nil, false
+			}
+			f = append(f, *t.RetRel)
+		}
+		sums = append(sums, f)
+	}
+	return sums, unsigned, true
 }
